@@ -1,3 +1,3 @@
-import Props.SlicesGen
+import Props.GenTraverse
 open Model.SlicesGen
 #print axioms traverse_eq
